@@ -2,7 +2,7 @@
    Index-level statements (any number of dimensions, any sizes, any dimension order). *)
 From Coq Require Import ZArith List Bool Permutation.
 From XV Require Import Base.Scalar Base.Mat Model.NdArr Proofs.C02_proofs.
-From XV Require Model.Pipe Gen.T7pipe Proofs.Pipe_proofs Proofs.Pipe_tie.
+From XV Require Model.Pipe Model.Concat Gen.T7pipe Proofs.Pipe_proofs Proofs.Pipe_tie Proofs.Concat_proofs.
 Import ListNotations.
 
 Theorem C02_unflatten_flatten : forall (sh : shape) (idx : list nat), inb sh idx -> unflatten sh (flatten sh idx) = idx.
@@ -51,7 +51,15 @@ Theorem C02_rename_roundtrip : forall (start : nat) (sample xdims : list nat), i
 Proof. exact (Pipe_proofs.rename_roundtrip T7pipe.renamer_rule). Qed.
 Print Assumptions C02_rename_roundtrip.
 
-(* the Concatenator cuts the feature axis back into blocks in the insertion order of the fitted coordinates *)
-Theorem C02_concatenator_block_order : T7pipe.concatenator_splits_in_insertion_order = true.
-Proof. exact (proj2 Pipe_tie.cross_wiring_ok). Qed.
-Print Assumptions C02_concatenator_block_order.
+(* the Concatenator (walking rule regenerated from the source): joining the items of a list along the feature axis
+   and cutting them back returns every item with its own labels and values, for any number of items of any sizes *)
+Theorem C02_concatenator_roundtrip : forall items : list Concat.item,
+  Concat.split T7pipe.concat_rule (Concat.coords_in items) (Concat.concat_values items) = Some items.
+Proof. exact Concat_proofs.split_concat. Qed.
+Print Assumptions C02_concatenator_roundtrip.
+
+(* walking the string keys "0","1","10","11","2",... in sorted order instead gives item 2 the labels of item 10 *)
+Theorem C02_concatenator_sorted_keys_refuted :
+  Concat.split Concat.SortedKeys (Concat.coords_in Concat_proofs.eleven) (Concat.concat_values Concat_proofs.eleven) <> Some Concat_proofs.eleven.
+Proof. exact (proj1 Concat_proofs.sorted_keys_refuted). Qed.
+Print Assumptions C02_concatenator_sorted_keys_refuted.
